@@ -806,18 +806,27 @@ def inline_straight_line_helpers(tree: ast.Module, keep=frozenset()) -> int:
             root = getattr(st, "value", None) if isinstance(st, (ast.Assign, ast.Return, ast.Expr)) else None
             if root is not None and call is not None:
                 chain, cur = [], root
-                while isinstance(cur, ast.Call) and len(cur.args) == 1 and not cur.keywords and not isinstance(cur.args[0], ast.Starred):
-                    chain.append(cur)
-                    cur = cur.args[0]
+                while True:
+                    if isinstance(cur, ast.Call) and len(cur.args) == 1 and not cur.keywords and not isinstance(cur.args[0], ast.Starred):
+                        chain.append(cur)
+                        cur = cur.args[0]
+                    elif chain and isinstance(cur, ast.Subscript) and not any(isinstance(n_, ast.Call) and not (isinstance(n_.func, ast.Name) and n_.func.id == "len") for n_ in ast.walk(cur.slice)):
+                        chain.append(cur)  # `h(..)[1:-1]`: the subscripted value is evaluated before the (call-free) slice
+                        cur = cur.value
+                    else:
+                        break
                 if chain and isinstance(cur, ast.Call):
                     f0 = cur.func
                     inl = (isinstance(f0, ast.Name) and f0.id in by_name) or (isinstance(f0, ast.Attribute) and isinstance(f0.value, ast.Name) and f0.value.id in ("self", cls_name or "self") and f0.attr in methods)
-                    outer_plain = all(isinstance(c_.func, (ast.Name, ast.Attribute)) and not any(isinstance(n_, ast.Call) for n_ in ast.walk(c_.func)) for c_ in chain)
+                    outer_plain = all(isinstance(c_, ast.Subscript) or (isinstance(c_.func, (ast.Name, ast.Attribute)) and not any(isinstance(n_, ast.Call) for n_ in ast.walk(c_.func))) for c_ in chain)
                     if inl and outer_plain:
                         _INL_COUNTER[0] += 1
                         tmp = f"_hoisted__i{_INL_COUNTER[0]}"
                         pre = ast.copy_location(ast.Assign(targets=[ast.Name(id=tmp, ctx=ast.Store())], value=cur), st)
-                        chain[-1].args[0] = ast.copy_location(ast.Name(id=tmp, ctx=ast.Load()), cur)
+                        if isinstance(chain[-1], ast.Subscript):
+                            chain[-1].value = ast.copy_location(ast.Name(id=tmp, ctx=ast.Load()), cur)
+                        else:
+                            chain[-1].args[0] = ast.copy_location(ast.Name(id=tmp, ctx=ast.Load()), cur)
                         ast.fix_missing_locations(pre)
                         block[i:i + 1] = [pre, st]
                         total += 1
@@ -856,6 +865,51 @@ def inline_straight_line_helpers(tree: ast.Module, keep=frozenset()) -> int:
                                                 if isinstance(n, ast.Name) and n.id == result.id:
                                                     n.id = tgt.id
                                         tail = []
+                            # `A, B = helper(..)` whose every exit returns a tuple display of that arity: each exit stores A and B directly
+                            attr_single = isinstance(tgt, ast.Attribute) and isinstance(tgt.value, ast.Name) and tgt.value.id == "self"
+                            if (attr_single or (isinstance(tgt, (ast.Tuple, ast.List)) and all(isinstance(e, (ast.Name, ast.Attribute)) for e in tgt.elts))) \
+                                    and isinstance(result, ast.Name) and "__i" in result.id and tail:
+                                if attr_single:
+                                    # `self.X = helper(..)`: every exit of the helper stores self.X directly (a 1-tuple of targets)
+                                    tgt = ast.Tuple(elts=[tgt], ctx=ast.Store())
+                                rstores = [x for s_ in stmts for x in ast.walk(s_) if isinstance(x, ast.Assign) and len(x.targets) == 1 and isinstance(x.targets[0], ast.Name) and x.targets[0].id == result.id]
+                                if attr_single:
+                                    for x in rstores:
+                                        x.value = ast.copy_location(ast.Tuple(elts=[x.value], ctx=ast.Load()), x.value)
+                                rloads = [n for s_ in stmts for n in ast.walk(s_) if isinstance(n, ast.Name) and n.id == result.id and isinstance(n.ctx, ast.Load)]
+                                tnames = {ast.unparse(e) for e in tgt.elts}
+                                shape_ok = rstores and not rloads and all(isinstance(x.value, ast.Tuple) and len(x.value.elts) == len(tgt.elts) for x in rstores)
+                                if attr_single and not shape_ok:
+                                    for x in rstores:
+                                        x.value = x.value.elts[0]
+                                if shape_ok:
+                                    for x in rstores:
+                                        for k_, e in enumerate(x.value.elts):
+                                            if any(ast.unparse(n) in tnames for n in ast.walk(e) if isinstance(n, (ast.Name, ast.Attribute))) :
+                                                shape_ok = False
+                                    if attr_single and not shape_ok:
+                                        for x in rstores:
+                                            x.value = x.value.elts[0]
+                                if shape_ok:
+                                    def _split(blk):
+                                        j = 0
+                                        while j < len(blk):
+                                            x = blk[j]
+                                            if x in rstores:
+                                                parts = []
+                                                for t_, e in zip(tgt.elts, x.value.elts):
+                                                    t2 = copy.deepcopy(t_)
+                                                    parts.append(ast.copy_location(ast.Assign(targets=[t2], value=e), x))
+                                                blk[j:j + 1] = parts
+                                                j += len(parts)
+                                                continue
+                                            for f4 in ("body", "orelse", "finalbody"):
+                                                sub4 = getattr(x, f4, None)
+                                                if isinstance(sub4, list) and sub4 and isinstance(sub4[0], ast.stmt):
+                                                    _split(sub4)
+                                            j += 1
+                                    _split(stmts)
+                                    tail = []
                         elif kind == "return":
                             tail = [ast.copy_location(ast.Return(value=result), st)]
                         else:
@@ -984,7 +1038,102 @@ def package_facts(trees) -> dict:
         if len(set(v)) == 1:
             signatures[k] = list(v[0])
     stable = (established - stored_elsewhere) - callables
-    return {"signatures": signatures, "stable_attrs": stable, "frozen_attrs": stable - mutated}
+    # the printing method behind str(): exactly one `__str__` of the form `return self.M(True)`; M defined only in classes
+    # that do not define `__str__` themselves (then `x.M(True)` and `str(x)` are the same call for every object that has M)
+    str_methods = []
+    strs = 0
+    for tree in trees:
+        for cls in [n for n in ast.walk(tree) if isinstance(n, ast.ClassDef)]:
+            for m in cls.body:
+                if isinstance(m, ast.FunctionDef) and m.name == "__str__":
+                    strs += 1
+                    b = [x for x in m.body if not (isinstance(x, ast.Expr) and isinstance(x.value, ast.Constant))]
+                    if len(b) == 1 and isinstance(b[0], ast.Return) and isinstance(b[0].value, ast.Call) and isinstance(b[0].value.func, ast.Attribute) \
+                            and isinstance(b[0].value.func.value, ast.Name) and b[0].value.func.value.id == "self" and len(b[0].value.args) == 1 \
+                            and isinstance(b[0].value.args[0], ast.Constant) and b[0].value.args[0].value is True and not b[0].value.keywords:
+                        str_methods.append((cls.name, b[0].value.func.attr))
+    str_method = None
+    if len(str_methods) == 1:
+        base, meth = str_methods[0]
+        ok_ = True
+        for tree in trees:
+            for cls in [n for n in ast.walk(tree) if isinstance(n, ast.ClassDef)]:
+                has_m = any(isinstance(m, ast.FunctionDef) and m.name == meth for m in cls.body)
+                has_s = any(isinstance(m, ast.FunctionDef) and m.name == "__str__" for m in cls.body)
+                if has_m and has_s and cls.name != base:
+                    ok_ = False
+        if ok_:
+            str_method = meth
+    return {"signatures": signatures, "stable_attrs": stable, "frozen_attrs": stable - mutated, "str_method": str_method}
+
+
+def canonical_prefix_tests(tree: ast.Module) -> int:
+    """`X[:len("kw")] == "kw"` (or with the length written as a number) is `X.startswith("kw")`; `!=` is its negation;
+    `X[-len("kw"):] == "kw"` is `X.endswith("kw")` (for a non-empty constant)."""
+    total = 0
+
+    def _len_of(e, k):
+        if isinstance(e, ast.Constant) and e.value == len(k):
+            return True
+        return isinstance(e, ast.Call) and isinstance(e.func, ast.Name) and e.func.id == "len" and len(e.args) == 1 and isinstance(e.args[0], ast.Constant) and e.args[0].value == k
+
+    class T(ast.NodeTransformer):
+        def visit_Compare(self, c):
+            nonlocal total
+            self.generic_visit(c)
+            if len(c.ops) != 1 or not isinstance(c.ops[0], (ast.Eq, ast.NotEq)):
+                return c
+            a, b = c.left, c.comparators[0]
+            if isinstance(a, ast.Constant) and isinstance(b, ast.Subscript):
+                a, b = b, a
+            if not (isinstance(a, ast.Subscript) and isinstance(a.slice, ast.Slice) and a.slice.step is None and isinstance(b, ast.Constant) and isinstance(b.value, str) and b.value):
+                return c
+            k = b.value
+            meth = None
+            if a.slice.lower is None and a.slice.upper is not None and _len_of(a.slice.upper, k):
+                meth = "startswith"
+            elif a.slice.upper is None and isinstance(a.slice.lower, ast.UnaryOp) and isinstance(a.slice.lower.op, ast.USub) and _len_of(a.slice.lower.operand, k):
+                meth = "endswith"
+            if meth is None:
+                return c
+            total += 1
+            call = ast.Call(func=ast.Attribute(value=a.value, attr=meth, ctx=ast.Load()), args=[b], keywords=[])
+            new = call if isinstance(c.ops[0], ast.Eq) else ast.UnaryOp(op=ast.Not(), operand=call)
+            return ast.copy_location(new, c)
+
+    T().visit(tree)
+    if total:
+        ast.fix_missing_locations(tree)
+    return total
+
+
+def canonical_str_calls(tree: ast.Module, facts) -> int:
+    """`x.generate_string(True)` is written `str(x)` (facts['str_method']: the base class's `__str__` is exactly that call
+    and no class that has the method overrides `__str__`); not inside the `__str__` that defines the equivalence."""
+    meth = (facts or {}).get("str_method")
+    if not meth:
+        return 0
+    total = 0
+    skip = {id(n) for f_ in ast.walk(tree) if isinstance(f_, ast.FunctionDef) and f_.name == "__str__" for n in ast.walk(f_)}
+
+    class T(ast.NodeTransformer):
+        def visit_Call(self, c):
+            nonlocal total
+            self.generic_visit(c)
+            if id(c) in skip:
+                return c
+            f = c.func
+            if isinstance(f, ast.Attribute) and f.attr == meth and not (isinstance(f.value, ast.Call) and isinstance(f.value.func, ast.Name) and f.value.func.id == "super"):
+                arg = c.args[0] if len(c.args) == 1 and not c.keywords else (c.keywords[0].value if not c.args and len(c.keywords) == 1 and c.keywords[0].arg == "extension" else None)
+                if isinstance(arg, ast.Constant) and arg.value is True:
+                    total += 1
+                    return ast.copy_location(ast.Call(func=ast.Name(id="str", ctx=ast.Load()), args=[f.value], keywords=[]), c)
+            return c
+
+    T().visit(tree)
+    if total:
+        ast.fix_missing_locations(tree)
+    return total
 
 
 # ---------------------------------------------------------------------------------------------- (8) keyword arguments of package calls
@@ -1671,13 +1820,143 @@ def inline_lazy_loop_constants(tree: ast.Module) -> int:
     return total
 
 
+# ---------------------------------------------------------------------------------------------- (20) private module constants
+def inline_private_constants(tree: ast.Module, keep=frozenset()) -> int:
+    """A private module-level name (`_NAME`) bound exactly once, at module level, to an immutable literal (number, text, tuple
+    of at most 8 such) and never re-bound (`global`) is that literal: reads inside the module are written as the literal.
+    Names the rules anchor on (`keep`) stay."""
+    consts = {}
+    for st in tree.body:
+        if isinstance(st, ast.Assign) and len(st.targets) == 1 and isinstance(st.targets[0], ast.Name):
+            n, v = st.targets[0].id, st.value
+            if not n.startswith("_") or n.startswith("__") or n in keep:
+                continue
+            imported = {(a.asname or a.name).split(".")[0] for st2 in tree.body if isinstance(st2, (ast.Import, ast.ImportFrom)) for a in st2.names}
+
+            def _cell(e):
+                if isinstance(e, ast.Constant):
+                    return isinstance(e.value, (int, float, str)) and not isinstance(e.value, bool)
+                if isinstance(e, ast.Attribute):  # an enumeration member of an imported module: rc.BondType.DOUBLE
+                    b_ = e
+                    while isinstance(b_, ast.Attribute):
+                        b_ = b_.value
+                    return isinstance(b_, ast.Name) and b_.id in imported
+                return False
+
+            lit = _cell(v) and isinstance(v, ast.Constant)
+            tup = isinstance(v, ast.Tuple) and 1 <= len(v.elts) <= 8 and all(
+                _cell(e) or (isinstance(e, ast.Tuple) and 1 <= len(e.elts) <= 4 and all(_cell(x) for x in e.elts)) for e in v.elts)
+            if (lit or tup) and _stores(tree, n) == 1:
+                consts[n] = v
+    if not consts:
+        return 0
+    total = 0
+
+    class _S(ast.NodeTransformer):
+        def visit_Name(self, n):
+            nonlocal total
+            if isinstance(n.ctx, ast.Load) and n.id in consts:
+                total += 1
+                return ast.copy_location(copy.deepcopy(consts[n.id]), n)
+            return n
+
+    for fn in [n for n in ast.walk(tree) if isinstance(n, FUNC)]:
+        params = {a.arg for a in fn.args.args + fn.args.kwonlyargs + fn.args.posonlyargs}
+        if params & set(consts):
+            continue
+        fn.body = [_S().visit(st) for st in fn.body]
+    if total:
+        ast.fix_missing_locations(tree)
+    return total
+
+
+# ---------------------------------------------------------------------------------------------- (23) loop-carried search positions
+def recompute_loop_carried_tests(tree: ast.Module) -> int:
+    """`v = E` before `while T(v): BODY; v = E` (the same pure E, v stored nowhere else, no `continue` in BODY that would skip
+    the update, v not read after the loop) — and `while T(v := E): BODY` — are written `while T(E): v = E; BODY`: the test
+    always sees the freshly computed E; BODY sees the value computed at the top of the iteration."""
+    total = 0
+    for fn in [n for n in ast.walk(tree) if isinstance(n, FUNC)]:
+        for holder in ast.walk(fn):
+            for fld in ("body", "orelse", "finalbody"):
+                block = getattr(holder, fld, None)
+                if not (isinstance(block, list) and block and isinstance(block[0], ast.stmt)):
+                    continue
+                for i, loop in enumerate(block):
+                    if not (isinstance(loop, ast.While) and not loop.orelse and loop.body):
+                        continue
+
+                    def _has_continue(stmts):
+                        for s_ in stmts:
+                            if isinstance(s_, ast.Continue):
+                                return True
+                            if isinstance(s_, (ast.For, ast.While)) or isinstance(s_, FUNC):
+                                continue
+                            for f2 in ("body", "orelse", "finalbody"):
+                                sub = getattr(s_, f2, None)
+                                if isinstance(sub, list) and sub and isinstance(sub[0], ast.stmt) and _has_continue(sub):
+                                    return True
+                            for h in getattr(s_, "handlers", []) or []:
+                                if _has_continue(h.body):
+                                    return True
+                        return False
+
+                    inside = {id(n) for n in ast.walk(loop)}
+                    # walrus form
+                    wal = [n for n in ast.walk(loop.test) if isinstance(n, ast.NamedExpr) and isinstance(n.target, ast.Name)]
+                    if len(wal) == 1 and _pure_np(wal[0].value):
+                        v, e = wal[0].target.id, wal[0].value
+                        if _stores(fn, v) == 1 and not any(isinstance(n, ast.Name) and n.id == v and isinstance(n.ctx, ast.Load) and id(n) not in inside for n in ast.walk(fn)) \
+                                and sum(1 for n in ast.walk(loop.test) if isinstance(n, ast.Name) and n.id == v) == 1:
+                            class _W(ast.NodeTransformer):
+                                def visit_NamedExpr(self, n):
+                                    return n.value if n is wal[0] else self.generic_visit(n)
+                            loop.test = _W().visit(loop.test)
+                            first = ast.copy_location(ast.Assign(targets=[ast.Name(id=v, ctx=ast.Store())], value=copy.deepcopy(e)), loop.body[0])
+                            loop.body.insert(0, first)
+                            total += 1
+                        continue
+                    if i == 0:
+                        continue
+                    pre, last = block[i - 1], loop.body[-1]
+                    if not (isinstance(pre, ast.Assign) and len(pre.targets) == 1 and isinstance(pre.targets[0], ast.Name)
+                            and isinstance(last, ast.Assign) and len(last.targets) == 1 and isinstance(last.targets[0], ast.Name)
+                            and pre.targets[0].id == last.targets[0].id and ast.dump(pre.value) == ast.dump(last.value) and len(loop.body) > 1):
+                        continue
+                    v, e = pre.targets[0].id, pre.value
+                    if not _pure_np(e) or _stores(fn, v) != 2 or _has_continue(loop.body):
+                        continue
+                    if any(isinstance(n, ast.Name) and n.id == v and isinstance(n.ctx, ast.Load) and id(n) not in inside for n in ast.walk(fn)):
+                        continue
+                    if not any(isinstance(n, ast.Name) and n.id == v for n in ast.walk(loop.test)):
+                        continue
+
+                    class _T(ast.NodeTransformer):
+                        def visit_Name(self, n):
+                            if n.id == v and isinstance(n.ctx, ast.Load):
+                                return ast.copy_location(copy.deepcopy(e), n)
+                            return n
+
+                    loop.test = _T().visit(loop.test)
+                    loop.body = [ast.copy_location(ast.Assign(targets=[ast.Name(id=v, ctx=ast.Store())], value=copy.deepcopy(e)), loop.body[0])] + loop.body[:-1]
+                    block[i - 1] = ast.copy_location(ast.Pass(), pre)
+                    total += 1
+    if total:
+        ast.fix_missing_locations(tree)
+    return total
+
+
 def normalise(tree: ast.Module, keep=frozenset(), facts=None) -> Dict[str, int]:
     strip_annotations(tree)
+    recompute_loop_carried_tests(tree)
+    inline_private_constants(tree, keep)
     inline_lazy_loop_constants(tree)
     unroll_literal_tables(tree)
     kz = index_neighbour_pairs(tree)
     kz += fold_field_aliases(tree)
     k8 = positional_package_arguments(tree, facts)
+    k8 += canonical_str_calls(tree, facts)
+    k8 += canonical_prefix_tests(tree)
     k9 = propagate_stable_aliases(tree, facts)
     k9 += propagate_pure_temporaries(tree, facts)
     k9 += propagate_stable_aliases(tree, facts)
@@ -1691,5 +1970,6 @@ def normalise(tree: ast.Module, keep=frozenset(), facts=None) -> Dict[str, int]:
     c = canonicalise_updates(tree)
     d = canonicalise_text_building(tree)
     q = expand_quantified_returns(tree)
+    q += unroll_literal_tables(tree)  # a lowered quantifier may range over a literal table
     l = comprehend_append_loops(tree)
     return {"append_loops": l, "helpers_inlined": a, "straight_line_helpers_inlined": a2, "keyword_arguments_positional": k8, "stable_aliases": k9, "sum_calls": k10, "condition_temporaries": b, "updates": c, "text_concatenations": d, "quantified_returns": q, "neighbour_pairs": kz}
